@@ -67,6 +67,8 @@ func derive(t reflect.Type, how string) reflect.Type {
 			{Name: "V", Type: t, Tag: `json:"v"`},
 			{Name: "B", Type: reflect.TypeOf("")},
 		})
+	case "pstruct": // pointer to the run-time-created struct: decoded before the struct itself in half of the cases
+		return reflect.PointerTo(derive(t, "struct"))
 	case "structptr":
 		return reflect.StructOf([]reflect.StructField{
 			{Name: "P", Type: reflect.PointerTo(t)},
@@ -348,6 +350,12 @@ func TestCheck(t *testing.T) {
 			runCase(f, Case{Type: e.Name, Fill: seed})
 			if !e.Composite && (k+rt.E.Shard)%3 == 0 { // a run-time-created type in between (heap descriptor)
 				d := derivations[(k/3+pass+rt.E.Shard)%len(derivations)]
+				if d == "struct" && (k/3)%2 == 0 && e.Methods != "mt-val" {
+					// first the pointer type of the same run-time struct (**S destination), then the struct (*S):
+					// both live in the fallback map only
+					runCase(f, Case{Type: e.Name, Derive: "pstruct", Fill: seed})
+					rt.Label("run-time pointer type decoded before its element type")
+				}
 				runCase(f, Case{Type: e.Name, Derive: d, Fill: seed})
 			}
 			if rt.Thorough() {
